@@ -2,6 +2,7 @@ package main
 
 import (
 	"fmt"
+	"sync"
 	"go/constant"
 	"go/token"
 	"go/types"
@@ -83,6 +84,11 @@ type FnCtx struct {
 	dupSafe    map[string]bool
 	err        error
 	trustedSet map[string]bool
+	assertSyms [][]string
+	recSyms    map[string][]string
+	symIndex   map[string][]int
+	symIndexed int
+	sliceMu    sync.Mutex
 }
 
 type retPoint struct {
@@ -394,6 +400,12 @@ func (fc *FnCtx) storeAt(st *State, addr Val, v Val, t types.Type) {
 		st.locals[addr.Local] = v.T
 		return
 	}
+	// storing a possibly old pointer into the heap may make a young object graph reach old memory
+	if len(st.young) > 0 && pointerLike(t) && !harmlessType(t, 0) {
+		if !fc.isYoungVal(st, v, t) {
+			st.young = map[string]string{}
+		}
+	}
 	if isStructLike(t) {
 		var ls []Leaf
 		ti.leaves(t, 0, "", &ls)
@@ -457,7 +469,9 @@ func (fc *FnCtx) fieldAddrOf(ref string, t types.Type, i int) Val {
 // allocObject creates a fresh zero-initialised object of type t, returns its ref.
 func (fc *FnCtx) allocObject(st *State, t types.Type) string {
 	ti := fc.g.ti
+	before := st.alloc()
 	ref := st.newRef()
+	st.young[ref] = before
 	if _, isStruct := t.Underlying().(*types.Struct); isStruct {
 		if _, isNamed := types.Unalias(t).(*types.Named); isNamed {
 			fc.q.assert(implies(st.reach, fmt.Sprintf("(= (rootTy %s) %d)", st.alloc(), ti.typeID(types.Unalias(t)))))
@@ -542,7 +556,7 @@ func (g *Gen) genFunction(fn *ssa.Function, con *Contract, safety bool) *FnCtx {
 	}
 	fc.findLoops()
 	// entry state
-	st := &State{fc: fc, reach: "true", locals: map[*ssa.Alloc]string{}, heap: map[string]string{}, ghost: map[string]string{}, nonnil: map[string]bool{}, bounds: map[string]string{}, baseBound: "alloc0"}
+	st := &State{fc: fc, reach: "true", locals: map[*ssa.Alloc]string{}, heap: map[string]string{}, ghost: map[string]string{}, nonnil: map[string]bool{}, bounds: map[string]string{}, baseBound: "alloc0", young: map[string]string{}}
 	st.allocB = fc.q.declare("alloc0", sInt)
 	fc.q.assert("(>= alloc0 0)")
 	for _, p := range fn.Params {
@@ -840,6 +854,7 @@ func (fc *FnCtx) enterLoop(li *loopInfo, st *State) {
 		}
 	}
 	st.nonnil = map[string]bool{}
+	st.young = map[string]string{}
 	// phis of the header are havocked in execBlock; assume invariants after phis are defined
 	li.headSt = st
 }
@@ -976,7 +991,7 @@ func (fc *FnCtx) finish() {
 	if fc.con.Modifies != nil || fc.con.Pure {
 		declared := fc.con.frame(fc.g)
 		if !declared.top {
-			for _, a := range sortedKeys(exit.heap) {
+			for _, a := range sortedKeys(fc.written) {
 				if declared.arrs[a] {
 					continue
 				}
@@ -989,7 +1004,7 @@ func (fc *FnCtx) finish() {
 		}
 	}
 	env := fc.selfEnv(fc.entry, exit, results)
-	env.frameArrs = sortedKeys(exit.heap)
+	env.frameArrs = sortedKeys(fc.written)
 	if fc.con.Invokes != "" {
 		cnt := exit.ghostGet("#"+fc.con.Invokes, sInt, "0")
 		fc.oblige(exit, "post", "invokes_"+fc.con.Invokes+"_exactly_once", eq(cnt, "1"), fc.fn.Pos(), nil)
